@@ -76,7 +76,7 @@ func ruleWriteCount(r *Report) {
 			// a comparison that only runs once the write already reported an error does not count
 			underErr := false
 			for _, e := range failEdges {
-				if e.To == b || e.To.Dominates(b) {
+				if e.To == b || dominates(e.To, b) {
 					underErr = true
 				}
 			}
